@@ -9,7 +9,7 @@ claims = {
          "Functions outside the contract set and the schema library are not covered; termination only where a decreases clause exists (jerr loops, context walks, trace loops, the scanner); termination of the core's scan loops over Next and of the macro expansion is not machine-checked; see evidence.assumptions and unverified_functions.",
          "contract-based deductive verification: safety VCs from go/ssa discharged by z3/cvc5", "DESIGN.md 4.C01"),
  "C03": ("proof",
-         "Partial claim, single-run reformulation (DESIGN 4.C03): (a) frame scan over the SSA of the whole repository: the only ranges over maps are in four named functions, each of which only collects the keys into a slice that is sorted before use (shape checked on the SSA); no goroutine, select, time, math/rand or pointer-to-integer conversion in repository code; (b) package-level state is written only by initialisers and the declared sync.Once closure.",
+         "Partial claim, single-run reformulation (DESIGN 4.C03): (a) frame scan over the SSA of the whole repository: the only ranges over maps are in four named functions, each of which only collects the keys into a slice that is sorted with sort.Strings before use (shape checked on the SSA; a caller-supplied comparison is refused); no goroutine, select, time, math/rand or pointer-to-integer conversion in repository code; (b) package-level state is written only by initialisers and the declared sync.Once closure.",
          "Determinism of the schema library, of encoding/json and regexp is assumed; equality across processes and under concurrent parses is not claimed (see C16).",
          "contract-style frame scans over go/ssa (complete reader/writer/range lists declared in the contract files and checked on every run)", "DESIGN.md 4.C03"),
  "C06": ("proof",
@@ -25,7 +25,7 @@ claims = {
          "unchanged() compares all heap arrays touched by the function on pre-existing objects; NewDirectiveType is trusted to be a pure function of the keyword text (dtOf); the 'option changes nothing else' two-run half is replaced by the readers/writers frame scans.",
          "contract-based deductive verification: conditional frame postconditions, VCs from go/ssa discharged by z3/cvc5", "DESIGN.md 4.C18"),
  "C09": ("proof",
-         "Partial claim: representation invariant of every ordered collection (order has no duplicates, every ordered key is present, as many keys as entries) preserved by Set/SetToTop with whole-view postconditions; key texts: HTTP interaction ids are injective (lemma, SMT strings); AddTag/AddServer keep the invariant; ToJson/ToJsonIndent return exactly the bytes encoding/json produced (no post-processing). Known finding: JSON-RPC ids are not injective.",
+         "Partial claim: representation invariant of every ordered collection (order has no duplicates, every ordered key is present, as many keys as entries) preserved by Set/SetToTop with whole-view postconditions; key texts: HTTP interaction ids are injective (lemma, SMT strings); AddTag/AddServer keep the invariant; ToJson/ToJsonIndent return exactly the bytes encoding/json produced (no post-processing); every response and every request of an accepted project has a body; findUserTypes accepts only declared user types. Known finding: JSON-RPC ids are not injective.",
          "Assumed: fmt.Sprintf %s semantics for the two String() methods (trusted contracts); MarshalJSON emits one member per element of order (loop shape read, byte-level JSON is encoding/json's). UTF-8/JSON well-formedness and compact == indented are not claimed.",
          "contract-based deductive verification + SMT string lemmas", "DESIGN.md 4.C09"),
  "C11": ("proof",
@@ -41,11 +41,11 @@ claims = {
          "Assumed: pathParameters is a pure function of the path text (its split semantics is the bounded part); Interaction.Path() is a pure function of the interaction; collectUsedUserTypes only adds to the given set (trusted frame). Not claimed: the rejection rules of the first half of BuildResourceMethodsPathVariables (duplicate declaration, unused property) and the property names written into the shared schema nodes.",
          "contract-based deductive verification (loop invariant over a contract-local counting function) + bounded exhaustive execution for the path split", "DESIGN.md 4.C13"),
  "C15": ("proof",
-         "Proof: addDescription accepts a description only if the normalised text is non-empty (blank descriptions are rejected in either spelling; the normaliser is an assumed pure function there). BOUNDED stand-in (labelled in evidence.coverage.bounded): the real core.description and catalog.Annotation are executed on every text over a 7-symbol alphabet up to length 6 (thorough: 8): idempotence, shape of the result, bare == parenthesised, Annotation normal form.",
+         "Proof: addDescription accepts a description only if the normalised text is non-empty (blank descriptions are rejected in either spelling; the normaliser is an assumed pure function there). BOUNDED stand-in (labelled in evidence.coverage.bounded): the real core.description and catalog.Annotation are executed on every text over a 7-symbol alphabet (Annotation: 6 symbols including a two-byte letter) up to length 6 (thorough: 8): idempotence, shape of the result, bare == parenthesised, the argument's bytes are left unchanged, Annotation normal form with the non-blank bytes kept in order.",
          "Bounded by alphabet and length; one known finding class (idempotence when the result is itself parenthesised).",
          "bounded exhaustive execution of the real functions against an executable contract", "DESIGN.md 4.C15"),
  "C16": ("proof",
-         "Partial claim: lock-permission discipline of every generated ordered map, StringSet and RulesBuilder (every access to data/order requires the mutex held, write-held for stores; every method releases it: removing or weakening one Lock/Unlock fails a named obligation), sequential view contracts (whole-view postconditions of Set/SetToTop/Has/Get/GetValue/Len), and a frame scan: package-level variables are written only by initialisers and the declared sync.Once body.",
+         "Partial claim: lock-permission discipline of every generated ordered map, StringSet and RulesBuilder (every access to data/order requires the mutex held, write-held for stores; every method releases it: removing or weakening one Lock/Unlock fails a named obligation), sequential view contracts (whole-view postconditions of Set/SetToTop/Has/Get/GetValue/Len), a scan that every method of a mutex-guarded type has at most one lock acquisition site (no check-then-act over two critical sections), and a frame scan: package-level variables are written only by initialisers and the declared sync.Once body.",
          "Assumed: sync.RWMutex gives mutual exclusion; *regexp.Regexp is safe for concurrent use. Not claimed: data-race freedom of whole parses and equality of concurrent vs solo results (schedules); the callback-taking methods (Each, EachReverse, EachSafe, Find, Map, Update) are verified under the assumption that the callback leaves the collection's own fields alone (oncallback keeps): the callback runs with the lock held and the lock is released on every path.",
          "contract-based deductive verification (mutex as permission ghost state) + SSA frame scan of global stores", "DESIGN.md 4.C16"),
  "C17": ("proof",
